@@ -182,6 +182,10 @@ type runMode struct {
 	// the first FailFirst writes of this line are rejected, later ones accepted (a sink that recovers); with code
 	// that writes once per line this is a failed write
 	FailFirst int `json:"fail_first_writes,omitempty"`
+	// with Ready == false: the context is not cancelled before the line but WHILE the hand-off is blocked (nobody
+	// receives): a moment after the encoder has seen the event.  What must be observed is the same as for a
+	// context cancelled beforehand: the event, no forward, nil, the counter moved once.
+	CancelLate bool `json:"cancel_while_blocked,omitempty"`
 }
 
 // writeFails: the (first) write of this line's event is rejected
@@ -233,6 +237,16 @@ func newProcEnv(pm *metrics.PrometheusMetricsProvider) *procEnv {
 	return e
 }
 
+// callTimeout: how long one line may take before the run is given up (a correct daemon needs microseconds; the bound
+// is generous because the machine may be heavily loaded).
+const callTimeout = 30 * time.Second
+
+// onHang is set by main / doReplay: what to do when a call has not returned within callTimeout.
+var onHang = func(tok, msg string, mode runMode) {
+	fmt.Printf("the call for %q did not return within %s\n", msg, callTimeout)
+	os.Exit(3)
+}
+
 // runOne processes (tok, msg) on the long-lived processor.
 func runOne(tok, msg string, mode runMode) observation {
 	// one long-lived registry and provider for the whole run, as in the daemon: counters are
@@ -267,12 +281,33 @@ func runOne(tok, msg string, mode runMode) observation {
 			}
 		}()
 	} else {
-		cancel() // cancelled while the hand-off would block on an unready correlator
 		close(recvDone)
+		if !mode.CancelLate {
+			cancel() // cancelled while the hand-off would block on an unready correlator
+		} else {
+			// cancelled once the call is inside the blocked hand-off: after the encoder saw the event (plus a moment to
+			// reach the select); a line that writes nothing is simply over before
+			enc.wrote = make(chan struct{}, 8)
+			defer func() { enc.wrote = nil }()
+			wrote, over := enc.wrote, make(chan struct{})
+			defer close(over)
+			go func() {
+				select {
+				case <-wrote:
+					time.Sleep(2 * time.Millisecond)
+				case <-over:
+				case <-time.After(2 * time.Second):
+				}
+				cancel()
+			}()
+		}
 	}
 	before := counters(reg)
 	var obs observation
 	obs.T0 = time.Now()
+	// a call that does not come back (a hand-off that ignores its context, a lock never released) must not stall the
+	// run until the framework's time-out: the watchdog reports the case and ends the process
+	wd := time.AfterFunc(callTimeout, func() { onHang(tok, msg, mode) })
 	func() {
 		defer func() {
 			if r := recover(); r != nil {
@@ -294,6 +329,9 @@ func runOne(tok, msg string, mode runMode) observation {
 			obs.Ret = "other:" + err.Error()
 		}
 	}()
+	if !wd.Stop() {
+		select {} // the watchdog has fired and is ending the process
+	}
 	obs.T1 = time.Now()
 	cancel()
 	<-recvDone
@@ -446,8 +484,10 @@ func main() {
 	n := flag.Int("n", 400, "number of cases")
 	prop := flag.String("prop", "C06", "property")
 	replay := flag.String("replay", "", "replay file")
-	modeFlag := flag.String("mode", "", "\"\" = generated lines on the long-lived processor; slow = hand-offs nobody takes for a while (C05)")
+	modeFlag := flag.String("mode", "", "\"\" = generated lines on the long-lived processor; slow = hand-offs nobody takes for a while (C05); stall = records reaching the real FIFOs in pieces with pauses (C07)")
 	delays := flag.String("delays", "150,700,1500", "mode slow: milliseconds during which nobody receives, comma separated")
+	stalls := flag.String("stalls", "200,600,1200", "mode stall: milliseconds the writer pauses inside a record, comma separated")
+	per := flag.Int("per", 3, "mode stall: cases per pause length and pipe")
 	flag.Parse()
 	sshd.SetLogger(zap.NewNop().Sugar())
 	seed := hutil.SeedFromEnv()
@@ -457,6 +497,10 @@ func main() {
 	r := hutil.NewRand(seed ^ hashStr(*prop))
 	if *modeFlag == "slow" {
 		slowStage(*prop, seed, r, *delays, *out)
+		return
+	}
+	if *modeFlag == "stall" {
+		stallStage(*prop, seed, r, *stalls, *per, *out)
 		return
 	}
 	sum := hutil.NewSummary(*prop, seed, ruleText(*prop))
@@ -472,6 +516,20 @@ func main() {
 	// or not, is judged on its own by the property's oracle.
 	var queue []caseDesc
 	gi := 0
+	var cur caseDesc
+	onHang = func(tok, msg string, mode runMode) {
+		// the main goroutine is stuck inside the call: nothing else touches the summary any more
+		what := fmt.Sprintf("processing %q (pid token %q, mode %+v) did not return within %s", msg, tok, mode, callTimeout)
+		if !mode.Ready {
+			what += " although its context was cancelled while nobody received the login"
+		}
+		sum.FailKey("oracle", hangKey(*prop), what, map[string]any{"case": cur, "processed_before": append([]caseDesc{}, history...)})
+		sum.Notes = append(sum.Notes, "run given up after a call that did not return")
+		cases.Flush()
+		sum.CaseFiles = cases.Files
+		sum.Write(*out)
+		os.Exit(0)
+	}
 	for i := 0; i < *n; i++ {
 		var desc caseDesc
 		if len(queue) > 0 {
@@ -511,6 +569,7 @@ func main() {
 			}
 		}
 		g, tok, mode := desc.Gen, desc.Tok, desc.Mode
+		cur = desc
 		o := runOne(tok, g.Line, mode)
 		prev := history
 		history = append(history, desc)
@@ -548,6 +607,12 @@ func main() {
 		}
 		if !mode.Ready {
 			sum.Dist("mode_cancelled")
+			if mode.CancelLate {
+				sum.Dist("mode_cancelled_while_handoff_blocked")
+			}
+			if g.Forward && len(emitted(o.Events)) == 1 {
+				sum.Dist("mode_cancelled_accepted_login_event_written")
+			}
 		}
 		if mode.Framed {
 			sum.Dist("mode_framed")
@@ -565,6 +630,22 @@ func main() {
 	sum.Write(*out)
 }
 
+// hangKey: a call that never returns fails every one of these properties' oracles (each expects the line to have
+// been processed: "terminates", "exactly one event", "returns nil / the error").
+func hangKey(prop string) string {
+	switch prop {
+	case "C11":
+		return "total:hang"
+	case "C05":
+		return "forward:hang"
+	case "C19":
+		return "metrics:hang"
+	case "C07":
+		return "framed:hang"
+	}
+	return "fields:hang"
+}
+
 func hashStr(s string) uint64 {
 	var h uint64 = 1469598103934665603
 	for i := 0; i < len(s); i++ {
@@ -575,7 +656,7 @@ func hashStr(s string) uint64 {
 
 func ruleText(prop string) string {
 	return "messages rendered from sshd's format strings with generated field values (account names incl. unicode and words of the message, IPv4/IPv6/zone ids/host names, ports, all key types and lower-case/underscore/'ssh'-prefixed names of the class [A-Za-z0-9_-], SHA256/MD5 fingerprints incl. '=' padding, key IDs with spaces/parentheses/'serial'/'(serial N)'/' from A port N'/partial ' ssh2: ' fragments (domain no_ssh_frag of C06_accepted_cert), forged fragments in the account of accepted lines, serials to 2^64-1, paths with spaces), " +
-		"hostile names (C17; incl. every prefix/suffix of sshd's own phrases, empty names, escape-looking text such as #012 \\n %0a &#10;), arbitrary bytes and systematic mutations (C11), PID tokens (valid, signed, overflowing, empty, non-numeric), write failure, a writer that recovers after 1-2 rejected writes and cancelled hand-off modes (C05, C19), framed delivery through SyslogIngester.Process (C07, C17, C11); " +
+		"hostile names (C17; incl. every prefix/suffix of sshd's own phrases, empty names, escape-looking text such as #012 \\n %0a &#10;, and letters whose upper/lower/title/folded form has another UTF-8 length - enumerated from the Unicode tables -, NFC/NFD pairs, ligatures, final sigma, Turkish i's, combining marks), runs of blanks and tabs inside key ids, paths, shells, reasons and account names, arbitrary bytes and systematic mutations, sshd's generic '<Accepted|Failed|Postponed|Partial> <method> for ...' shape with hostile method tokens (invalid UTF-8, NUL, empty, very long) and every recognised message with one token replaced by hostile bytes (C11), PID tokens (valid, signed, overflowing, empty, non-numeric), write failure, a writer that recovers after 1-2 rejected writes and cancelled hand-off modes (context cancelled before the line, or while the hand-off is blocked; C05, C19), framed delivery through SyslogIngester.Process (C07, C17, C11, a third of C06); " +
 		"all lines of a run go through ONE long-lived processor (NewSshdProcessor once, ProcessSshdLogEntry per line), lines are repeated (2-4 times in a row, A B A); one private counter registry for the run; the " + prop + " oracle is evaluated from the generated fields; non-trivial = the case makes the implementation write an event; distinct by (token, line, mode)"
 }
 
@@ -594,6 +675,11 @@ func genCaseMix(r *hutil.Rand, prop string, i int) (genLine, string, runMode) {
 	mode := runMode{WriteOK: true, Ready: true, Debug: i%3 == 1}
 	switch prop {
 	case "C06":
+		// every third round of the forms goes through the syslog ingester, as in the daemon ("<pid> <pad><message>\n"): the
+		// fields of the event must still be the message's own, blank for blank
+		if (i/len(formNames))%3 == 1 {
+			mode.Framed, mode.Pad = true, []int{0, 1, 0, 3}[(i/(3*len(formNames)))%4]
+		}
 		return genForm(r, formNames[i%len(formNames)]), genPidToken(r, false), mode /*C06LIST*/
 	case "C17":
 		if i%2 == 1 { // through the syslog ingester, as in the daemon
@@ -601,6 +687,9 @@ func genCaseMix(r *hutil.Rand, prop string, i int) (genLine, string, runMode) {
 		}
 		if i%5 == 2 { // the systematic walk through the edge names (message phrases and their truncations, escapes), every form
 			return genClientNameEdge(i / 5), genPidToken(r, false), mode
+		}
+		if i%5 == 4 { // the systematic walk through names whose length changes under case mapping / normalisation (unicode.go)
+			return genClientNameCase(i / 5), genPidToken(r, false), mode
 		}
 		return genClientName(r), genPidToken(r, false), mode
 	case "C11":
@@ -619,6 +708,19 @@ func genCaseMix(r *hutil.Rand, prop string, i int) (genLine, string, runMode) {
 		case 5:
 			mode.Framed, mode.Pad = true, i%2
 			return genForm(r, hutil.Pick(r, formNamesAll)), genPidToken(r, false), mode
+		case 2: // sshd's generic authentication-result shape with any token for the method (gen.go: genGenericAuth)
+			if (i/7)%4 == 3 {
+				mode.Framed, mode.Pad = true, i%2
+			}
+			return genGenericAuth(r, i/7), genPidToken(r, (i/7)%5 == 4), mode
+		case 6: // a recognised message with one token replaced by hostile bytes, every token position in turn
+			if (i/7)%4 == 1 {
+				mode.Framed, mode.Pad = true, i%2
+			}
+			if (i/7)%9 == 8 {
+				return genClientNameCase(i / 63), genPidToken(r, false), mode
+			}
+			return genTokenReplaced(r, i/7), genPidToken(r, (i/7)%5 == 2), mode
 		}
 		if i%5 == 0 {
 			return genForm(r, hutil.Pick(r, formNamesAll)), genPidToken(r, true), mode
@@ -634,12 +736,24 @@ func genCaseMix(r *hutil.Rand, prop string, i int) (genLine, string, runMode) {
 			mode.FailFirst = 2
 		case 7:
 			mode.WriteOK = false
+		case 1: // nobody takes the login and the context is cancelled before the line: the event is emitted all the same
+			mode.Ready = false
+		case 4: // ... cancelled while the hand-off is blocked
+			mode.Ready, mode.CancelLate = false, true
 		}
 		if mode.writeFails() && i%2 == 1 {
 			mode.Framed = true
 		}
+		if !mode.Ready && i%3 == 2 {
+			// cancellation matters where there is a hand-off: the accepted forms in rotation (others: see the other slots)
+			mode.Framed = (i/24)%2 == 1
+			return genForm(r, slowForms[(i/24+i/3)%len(slowForms)]), genPidToken(r, false), mode
+		}
 		switch i % 3 {
 		case 0:
+			if i%12 == 6 {
+				return genGenericAuth(r, i/12), genPidToken(r, false), mode
+			}
 			return genHostile(r), genPidToken(r, true), mode
 		case 1:
 			if (i/3)%4 == 1 {
@@ -668,6 +782,7 @@ func genCaseMix(r *hutil.Rand, prop string, i int) (genLine, string, runMode) {
 			mode.WriteOK = false
 		case 2:
 			mode.Ready = false
+			mode.CancelLate = (i/24)%2 == 1 // ... before the line, or while the hand-off is blocked
 		case 4: // the sink rejects the first write(s) of the line and would accept a later one: the error is to be returned
 			mode.FailFirst = 1
 		case 5:
@@ -702,6 +817,7 @@ func doReplay(path, prop string) int {
 			Before []caseDesc   `json:"processed_before"`
 			Fifo   []fifoRecord `json:"fifo_records"`
 			Slow   *slowCase    `json:"slow_case"`
+			Stall  *stallCase   `json:"stall_case"`
 		} `json:"replay"`
 	}
 	if err := json.Unmarshal(raw, &rp); err == nil && len(rp.Replay.Fifo) > 0 {
@@ -718,6 +834,9 @@ func doReplay(path, prop string) int {
 	if rp.Replay.Slow != nil {
 		return replaySlow(*rp.Replay.Slow)
 	}
+	if rp.Replay.Stall != nil {
+		return replayStall(*rp.Replay.Stall)
+	}
 	if err := json.Unmarshal(raw, &rp); err != nil || rp.Replay.Case == nil {
 		fmt.Println("replay file carries no case (no failing input was found)")
 		return 2
@@ -727,6 +846,10 @@ func doReplay(path, prop string) int {
 	}
 	d := *rp.Replay.Case
 	d.unseal()
+	onHang = func(tok, msg string, mode runMode) {
+		fmt.Printf("REPRODUCED %s: processing %q (pid token %q) did not return within %s\n", hangKey(prop), msg, tok, callTimeout)
+		os.Exit(1)
+	}
 	for i := range rp.Replay.Before {
 		rp.Replay.Before[i].unseal()
 	}
